@@ -54,6 +54,18 @@ fn main() {
         for m in [blockfetch::Message::ClientDone, blockfetch::Message::StartBatch, blockfetch::Message::NoBlocks, blockfetch::Message::BatchDone] { check("network blockfetch", &m, same, &mut n); }
         for len in [0usize, 1, 23, 600] { check("network blockfetch", &blockfetch::Message::Block { body: vec![0xa5; len] }, same, &mut n); }
         for p in points.iter().step_by(7) { for q in points.iter().step_by(11) { check("network blockfetch", &blockfetch::Message::RequestRange { range: (p.clone(), q.clone()) }, same, &mut n); } }
+        // chain-sync messages over raw header content; point lists with repeated and adjacent-equal points
+        use pallas_network::miniprotocols::chainsync::{HeaderContent, Message as CS};
+        let samecs = |a: &CS<HeaderContent>, b: &CS<HeaderContent>| format!("{a:?}") == format!("{b:?}");
+        let tip = Tip(points[5].clone(), 77);
+        let hc = HeaderContent { variant: 6, byron_prefix: None, cbor: vec![0x82, 0x01, 0x02] };
+        let hcb = HeaderContent { variant: 0, byron_prefix: Some((1, 2)), cbor: vec![0x80] };
+        for m in [CS::RequestNext, CS::AwaitReply, CS::Done, CS::RollForward(hc.clone(), tip.clone()), CS::RollForward(hcb.clone(), tip.clone()),
+                  CS::RollBackward(points[3].clone(), tip.clone()), CS::RollBackward(Point::Origin, tip.clone()),
+                  CS::IntersectFound(points[9].clone(), tip.clone()), CS::IntersectNotFound(tip.clone())] { check("network chainsync", &m, samecs, &mut n); }
+        let lists: Vec<Vec<Point>> = vec![vec![], vec![Point::Origin], vec![Point::Origin, Point::Origin], vec![points[3].clone(), points[3].clone()],
+            vec![points[3].clone(), Point::Origin, Point::Origin], vec![points[3].clone(), points[4].clone(), points[3].clone()], points.iter().take(30).cloned().collect()];
+        for l in lists { check("network chainsync", &CS::<HeaderContent>::FindIntersect(l), samecs, &mut n); }
     }
     {   // tx-submission payloads (pallas-network)
         use pallas_network::miniprotocols::txsubmission::{EraTxBody, EraTxId, TxIdAndSize};
